@@ -34,7 +34,11 @@ def rx_selftest():
     pats = [re.compile(r"[A-Z]{2}\d{2}[A-Z]*"), re.compile(r"[A-Z]{2}\d{2}[A-Z]*", re.ASCII)]
     seen = set()
     for cc, s in ibantasks.table().items():
-        r = s["regex"]
+        r = s.get("regex")
+        if isinstance(r, str):
+            r = re.compile(r)       # a pattern kept as text: the module-level re functions compile it without flags
+        if not isinstance(r, re.Pattern):
+            continue
         if (r.pattern, r.flags) not in seen and len(seen) < 40:
             seen.add((r.pattern, r.flags))
             pats.append(r)
